@@ -14,15 +14,18 @@
      pkg/ratelimiter/clientsets/clientsets.go  setLeaderStatus / IsReady             -> [heartbeat] [is_ready]
      pkg/flowcontrols/flowcontrol/flowcontrol.go NewFlowControl / Resize (uint32 conversions) -> [new_lim] [resize_lim]
 
-   The parameter [fx] selects the behaviour: [fx = true] is the tree with the
-   candidate repair build/fixes/C09_clamp.diff applied, [fx = false] the
-   unrepaired tree (used by C09_Unrepaired.v for the refutations).
+   Two parameters select the behaviour:
+     [fx]  the repair build/fixes/C09_clamp.diff (applied to /repo as 95d346a, 4ffdf03, 82b2250);
+           [fx = false] is the tree before it;
+     [fy]  the repair build/fixes/C09_reclamp_on_schema_update.diff: a schema update re-bounds the
+           quota in force at once, also while the limiter server is unavailable.
+   The theorems are about [fx = fy = true]; C09_Unrepaired.v refutes them for the other trees.
    Machine integers: int32 values are [Z] with explicit [wrap32]/[wrapu32] at every
    Go conversion.  No proofs here. *)
 From KG Require Import Prelude.
 Open Scope Z_scope.
 
-(* ---------- configuration (fixed along a history) ---------- *)
+(* ---------- configuration (the limits change with ESchema, the type never) ---------- *)
 Inductive kind := KMI | KTB.                  (* max-in-flight schema | token-bucket schema *)
 Inductive strategy := SEmpty | SLocal | SAlloc | SCount | SOther.   (* "", local, globalAllocate, globalCount, other text *)
 Inductive mode := MRemote | MLocal | MOther.  (* upstreamLimiter.rateLimiter *)
@@ -48,6 +51,7 @@ Inductive ev :=
 | EHb (ok : bool)               (* one heartbeat outcome -> clientSets.setLeaderStatus *)
 | EElapse (sec : Z)             (* time passes *)
 | EStrategy (s : strategy)      (* schema update changing only the strategy -> localWrapper.Sync *)
+| ESchema (a b g h : Z)         (* schema update changing the limits (same type): local a,b ; global g,h *)
 | EEnable.                      (* reconcile goroutine preempted between EnableRemoteFlowControl and Sync *)
 
 (* ---------- limiters ---------- *)
@@ -60,19 +64,21 @@ Record inner := {
   imax : Z; irsv : Z;          (* maxInflightWrapper.max / reserve (int32) *)
   iqps : Z; iburst : Z;        (* tokenBucketWrapper.qps / burst (uint32) *)
   iun : bool; iover : bool;    (* serverUnavailable / overLimited *)
-  ilast : Z                    (* maxInflightWrapper.lastAcquireTime *)
+  ilast : Z;                   (* maxInflightWrapper.lastAcquireTime *)
+  ifb : Z                      (* (fy) fallback: max(observed, local) when the server became unavailable *)
 }.
 Record rwrap := { rin : option inner; rcfg : option item }.    (* remoteWrapper; rcfg None = zero value *)
 
 Record state := {
+  scfg : config;               (* localConfig: the limits currently configured *)
   sstr : strategy;             (* localConfig.Strategy *)
   rem : option rwrap;          (* flowControlCache.remote *)
   hlast : bool; hready : bool; hage : Z;   (* heartbeatStatus: lastState, ready, seconds since lastChange *)
   crashed : bool               (* a nil dereference happened in the reconcile goroutine *)
 }.
 
-Definition init (s : strategy) : state :=
-  {| sstr := s; rem := None; hlast := false; hready := false; hage := 0; crashed := false |}.
+Definition init (c : config) (s : strategy) : state :=
+  {| scfg := c; sstr := s; rem := None; hlast := false; hready := false; hage := 0; crashed := false |}.
 
 (* ---------- small helpers ---------- *)
 Definition strategy_eqb (a b : strategy) : bool :=
@@ -129,39 +135,51 @@ Definition reserve_of (fx : bool) (mx : Z) : Z :=
 (* ---------- the global-count wrappers ---------- *)
 Definition set_il (i : inner) (l : lim) : inner :=
   {| iw := iw i; il := l; imax := imax i; irsv := irsv i; iqps := iqps i; iburst := iburst i;
-     iun := iun i; iover := iover i; ilast := ilast i |}.
+     iun := iun i; iover := iover i; ilast := ilast i; ifb := ifb i |}.
 
-(* maxInflightWrapper.Resize(max uint32, _) *)
-Definition mi_resize (fx : bool) (i : inner) (n : Z) : inner :=
+(* maxInflightWrapper.Resize(max uint32, _); (fy) while the server is unavailable the fallback in
+   force is kept within the new maximum: unavailableMax() *)
+Definition mi_resize (fx fy : bool) (i : inner) (n : Z) : inner :=
   let mx := wrap32 n in
   let r := reserve_of fx mx in
-  {| iw := iw i; il := if iun i then il i else resize_lim (il i) (wrapu32 r) 0;
+  {| iw := iw i;
+     il := if iun i
+           then (if fy then resize_lim (il i) (wrapu32 (if mx <? ifb i then mx else ifb i)) 0 else il i)
+           else resize_lim (il i) (wrapu32 r) 0;
      imax := mx; irsv := r; iqps := iqps i; iburst := iburst i;
-     iun := iun i; iover := iover i; ilast := ilast i |}.
+     iun := iun i; iover := iover i; ilast := ilast i; ifb := ifb i |}.
 
-(* tokenBucketWrapper.Resize(qps, burst uint32): the unrepaired code stores burst := qps *)
-Definition tb_resize (fx : bool) (i : inner) (q b : Z) : inner :=
-  {| iw := iw i; il := if iun i then il i else resize_lim (il i) q b;
-     imax := imax i; irsv := irsv i; iqps := q; iburst := if fx then b else q;
-     iun := iun i; iover := iover i; ilast := ilast i |}.
+(* tokenBucketWrapper.Resize(qps, burst uint32): the unrepaired code stores burst := qps;
+   (fy) unavailableLimits() while the server is unavailable *)
+Definition tb_resize (fx fy : bool) (i : inner) (q b : Z) : inner :=
+  let b' := if fx then b else q in
+  {| iw := iw i;
+     il := if iun i
+           then (if fy then resize_lim (il i) (wrapu32 (if q <? ifb i then q else ifb i))
+                                              (wrapu32 (if b' <? ifb i then b' else ifb i))
+                 else il i)
+           else resize_lim (il i) q b;
+     imax := imax i; irsv := irsv i; iqps := q; iburst := b';
+     iun := iun i; iover := iover i; ilast := ilast i; ifb := ifb i |}.
 
-Definition inner_resize (fx : bool) (i : inner) (n b : Z) : inner :=
+Definition inner_resize (fx fy : bool) (i : inner) (n b : Z) : inner :=
   match iw i with
   | WEmpty => set_il i (resize_lim (il i) n b)
-  | WMI => mi_resize fx i n
-  | WTB => tb_resize fx i n b
+  | WMI => mi_resize fx fy i n
+  | WTB => tb_resize fx fy i n b
   end.
 
 Definition blank (w : wk) (l : lim) : inner :=
-  {| iw := w; il := l; imax := 0; irsv := 0; iqps := 0; iburst := 0; iun := false; iover := false; ilast := 0 |}.
+  {| iw := w; il := l; imax := 0; irsv := 0; iqps := 0; iburst := 0; iun := false; iover := false; ilast := 0;
+     ifb := 0 |}.
 
 (* remoteWrapper.newFlowControl + newFlowControlCounter; None = nil dereference *)
-Definition new_inner (fx : bool) (it : item) : option inner :=
+Definition new_inner (fx fy : bool) (it : item) : option inner :=
   let fc := new_lim (idet it) in
   if negb (strategy_eqb (istr it) SCount) then Some (blank WEmpty fc)
   else match idet it with
-       | DMI m => Some (mi_resize fx (blank WMI fc) (wrapu32 m))
-       | DTB q b => Some (tb_resize fx (blank WTB fc) (wrapu32 q) (wrapu32 b))
+       | DMI m => Some (mi_resize fx fy (blank WMI fc) (wrapu32 m))
+       | DTB q b => Some (tb_resize fx fy (blank WTB fc) (wrapu32 q) (wrapu32 b))
        | DNone => None            (* default branch reads limitItem.TokenBucket.QPS of a nil pointer *)
        end.
 
@@ -179,12 +197,12 @@ Definition rcfg_is (w : rwrap) (it : item) : bool :=
   match rcfg w with Some x => item_eqb x it | None => false end.
 
 (* remoteWrapper.Sync; None = nil dereference *)
-Definition rw_sync (fx : bool) (c : config) (w : rwrap) (it0 : item) : option rwrap :=
+Definition rw_sync (fx fy : bool) (c : config) (w : rwrap) (it0 : item) : option rwrap :=
   match (if fx then sanitize c it0 else Some it0) with
   | None => Some w                                      (* repaired: answer of the wrong type is ignored *)
   | Some it =>
       if rcfg_is w it then Some w else
-      let recreate := match new_inner fx it with
+      let recreate := match new_inner fx fy it with
                       | Some i => Some {| rin := Some i; rcfg := Some it |}
                       | None => None
                       end in
@@ -197,10 +215,10 @@ Definition rw_sync (fx : bool) (c : config) (w : rwrap) (it0 : item) : option rw
           else match idet it, ck c with
                | DMI m, KMI =>
                    let m' := if g1 c <? m then g1 c else m in
-                   Some {| rin := Some (inner_resize fx i (wrapu32 m') 0); rcfg := Some it |}
+                   Some {| rin := Some (inner_resize fx fy i (wrapu32 m') 0); rcfg := Some it |}
                | DTB q b, KTB =>
                    let q' := if g1 c <? q then g1 c else q in
-                   Some {| rin := Some (inner_resize fx i (wrapu32 q') (wrapu32 b)); rcfg := Some it |}
+                   Some {| rin := Some (inner_resize fx fy i (wrapu32 q') (wrapu32 b)); rcfg := Some it |}
                | DMI _, KTB => None                     (* local.Config().GlobalMaxRequestsInflight is nil *)
                | DTB _ _, KMI => None                   (* local.Config().GlobalTokenBucket is nil *)
                | DNone, _ => recreate
@@ -221,20 +239,21 @@ Definition set_limit (fx : bool) (c : config) (i : inner) (r : reply) (rt : Z) :
           match ck c with
           | KTB => None                                  (* localConfig.MaxRequestsInflight is nil *)
           | KMI =>
-              let x := if mx <? l1 c then l1 c else mx in
-              let x := if fx && (imax i <? x) then imax i else x in
+              let x0 := if mx <? l1 c then l1 c else mx in
+              let x := if fx && (imax i <? x0) then imax i else x0 in
               Some {| iw := WMI; il := resize_lim (il i) (wrapu32 x) 0; imax := imax i; irsv := irsv i;
-                      iqps := iqps i; iburst := iburst i; iun := true; iover := iover i; ilast := ilast i |}
+                      iqps := iqps i; iburst := iburst i; iun := true; iover := iover i; ilast := ilast i;
+                      ifb := x0 |}
           end
       | ROk true limit =>
           let v := if limit <? irsv i then irsv i else limit in
           let v := if imax i <? v then imax i else v in
           Some {| iw := WMI; il := resize_lim (il i) (wrapu32 v) 0; imax := imax i; irsv := irsv i;
-                  iqps := iqps i; iburst := iburst i; iun := false; iover := false; ilast := rt |}
+                  iqps := iqps i; iburst := iburst i; iun := false; iover := false; ilast := rt; ifb := ifb i |}
       | ROk false limit =>
           let v := if fx then clamp limit 0 (imax i) else limit in
           Some {| iw := WMI; il := resize_lim (il i) (wrapu32 v) 0; imax := imax i; irsv := irsv i;
-                  iqps := iqps i; iburst := iburst i; iun := iun i; iover := true; ilast := rt |}
+                  iqps := iqps i; iburst := iburst i; iun := iun i; iover := true; ilast := rt; ifb := ifb i |}
       end
   | WTB =>
       match r with
@@ -248,12 +267,14 @@ Definition set_limit (fx : bool) (c : config) (i : inner) (r : reply) (rt : Z) :
               let q := wrapu32 (if fx && (iqps i <? x) then iqps i else x) in
               let b := wrapu32 (if fx && (iburst i <? x) then iburst i else x) in
               Some {| iw := WTB; il := resize_lim (il i) q b; imax := imax i; irsv := irsv i;
-                      iqps := iqps i; iburst := iburst i; iun := true; iover := iover i; ilast := ilast i |}
+                      iqps := iqps i; iburst := iburst i; iun := true; iover := iover i; ilast := ilast i;
+                      ifb := x |}
           end
       | ROk true _ =>
           if iun i
           then Some {| iw := WTB; il := resize_lim (il i) (iqps i) (iburst i); imax := imax i; irsv := irsv i;
-                       iqps := iqps i; iburst := iburst i; iun := false; iover := iover i; ilast := ilast i |}
+                       iqps := iqps i; iburst := iburst i; iun := false; iover := iover i; ilast := ilast i;
+                       ifb := ifb i |}
           else Some i
       | ROk false _ => Some i
       end
@@ -261,16 +282,16 @@ Definition set_limit (fx : bool) (c : config) (i : inner) (r : reply) (rt : Z) :
 
 (* ---------- state updates ---------- *)
 Definition set_rem (s : state) (r : option rwrap) : state :=
-  {| sstr := sstr s; rem := r; hlast := hlast s; hready := hready s; hage := hage s; crashed := crashed s |}.
+  {| scfg := scfg s; sstr := sstr s; rem := r; hlast := hlast s; hready := hready s; hage := hage s; crashed := crashed s |}.
 Definition crash (s : state) : state :=
-  {| sstr := sstr s; rem := rem s; hlast := hlast s; hready := hready s; hage := hage s; crashed := true |}.
+  {| scfg := scfg s; sstr := sstr s; rem := rem s; hlast := hlast s; hready := hready s; hage := hage s; crashed := true |}.
 
 Definition empty_rw : rwrap := {| rin := None; rcfg := None |}.
 
 (* EnableRemoteFlowControl (if needed) followed by remoteWrapper.Sync(it) *)
-Definition apply_sync (fx : bool) (c : config) (s : state) (it : item) : state :=
+Definition apply_sync (fx fy : bool) (c : config) (s : state) (it : item) : state :=
   let w := match rem s with Some w => w | None => empty_rw end in
-  match rw_sync fx c w it with
+  match rw_sync fx fy c w it with
   | Some w' => set_rem s (Some w')
   | None => crash s
   end.
@@ -282,16 +303,22 @@ Definition heartbeat (s : state) (ok : bool) : state :=
   let rdy := if Bool.eqb (hready s) ok then hready s
              else if ok then true
              else if 5 <=? age then false else hready s in
-  {| sstr := sstr s; rem := rem s; hlast := ok; hready := rdy; hage := age; crashed := crashed s |}.
+  {| scfg := scfg s; sstr := sstr s; rem := rem s; hlast := ok; hready := rdy; hage := age; crashed := crashed s |}.
 
-Definition step (fx : bool) (st : static) (s : state) (e : ev) : state :=
-  let c := cfg st in
+Definition config_eqb (a b : config) : bool :=
+  (l1 a =? l1 b) && (l2 a =? l2 b) && (g1 a =? g1 b) && (g2 a =? g2 b).
+
+Definition set_cfg (s : state) (c : config) (r : option rwrap) : state :=
+  {| scfg := c; sstr := sstr s; rem := r; hlast := hlast s; hready := hready s; hage := hage s; crashed := crashed s |}.
+
+Definition step (fx fy : bool) (st : static) (s : state) (e : ev) : state :=
+  let c := scfg s in
   if crashed s then s else
   match e with
-  | EQuota it => if enable_global (sstr s) then apply_sync fx c s it else s
+  | EQuota it => if enable_global (sstr s) then apply_sync fx fy c s it else s
   | ECfgSync =>
       if strategy_eqb (sstr s) SCount
-      then apply_sync fx c s {| idet := global_detail c; istr := SCount |}
+      then apply_sync fx fy c s {| idet := global_detail c; istr := SCount |}
       else s
   | ECount r rt =>
       match rem s with
@@ -307,19 +334,41 @@ Definition step (fx : bool) (st : static) (s : state) (e : ev) : state :=
       end
   | EHb ok => heartbeat s ok
   | EElapse sec =>
-      {| sstr := sstr s; rem := rem s; hlast := hlast s; hready := hready s; hage := hage s + (if sec <? 0 then 0 else sec);
+      {| scfg := scfg s; sstr := sstr s; rem := rem s; hlast := hlast s; hready := hready s;
+         hage := hage s + (if sec <? 0 then 0 else sec);
          crashed := crashed s |}                 (* time does not run backwards *)
   | EStrategy x =>
       if strategy_eqb x (sstr s) then s
-      else {| sstr := x; rem := if enable_global x then rem s else None;    (* stopRemoteWrapper *)
+      else {| scfg := scfg s; sstr := x; rem := if enable_global x then rem s else None;    (* stopRemoteWrapper *)
               hlast := hlast s; hready := hready s; hage := hage s; crashed := crashed s |}
+  | ESchema a b g h =>
+      (* localWrapper.Sync with new limits of the same type: the local limiter is resized (it is
+         [local_lim (scfg _)]); the remote wrapper is stopped if the strategy is not global,
+         (fy) else the quota in force is bounded again: remote.rebound() = Sync(remoteConfig) *)
+      let c' := {| ck := ck c; l1 := a; l2 := b; g1 := g; g2 := h |} in
+      if config_eqb c' c then s
+      else if negb (enable_global (sstr s)) then set_cfg s c' None
+      else if fy then
+        match rem s with
+        | Some w =>
+            match rin w, rcfg w with
+            | Some _, Some it =>
+                match rw_sync fx fy c' w it with
+                | Some w' => set_cfg s c' (Some w')
+                | None => crash (set_cfg s c' (rem s))
+                end
+            | _, _ => set_cfg s c' (rem s)
+            end
+        | None => set_cfg s c' None
+        end
+      else set_cfg s c' (rem s)
   | EEnable =>
       if enable_global (sstr s)
       then match rem s with None => set_rem s (Some empty_rw) | Some _ => s end
       else s
   end.
 
-Definition run (fx : bool) (st : static) (s : state) (l : list ev) : state := fold_left (step fx st) l s.
+Definition run (fx fy : bool) (st : static) (s : state) (l : list ev) : state := fold_left (step fx fy st) l s.
 
 (* ---------- upstreamLimiter.Load ---------- *)
 Inductive sel := SelLocal | SelRemote | SelDefault | SelPanic.
@@ -389,19 +438,19 @@ Definition observe (fx : bool) (st : static) (s : state) : obs :=
   else
     let se := select fx st s in
     let l := match se with
-             | SelLocal => Some (local_lim (cfg st))
+             | SelLocal => Some (local_lim (scfg s))
              | SelRemote => match rem s with
                             | Some w => match rin w with Some i => Some (il i) | None => None end
                             | None => None
                             end
              | _ => None
              end in
-    {| o_evp := false; o_sel := se; o_lim := l; o_adm := admitted (cfg st) l;
+    {| o_evp := false; o_sel := se; o_lim := l; o_adm := admitted (scfg s) l;
        o_ready := is_ready st s; o_rem := observe_rem s |}.
 
 (* the trace the harness records: one observation after every event *)
-Fixpoint trace (fx : bool) (st : static) (s : state) (l : list ev) : list (ev * obs) :=
+Fixpoint trace (fx fy : bool) (st : static) (s : state) (l : list ev) : list (ev * obs) :=
   match l with
   | [] => []
-  | e :: r => let s' := step fx st s e in (e, observe fx st s') :: trace fx st s' r
+  | e :: r => let s' := step fx fy st s e in (e, observe fx st s') :: trace fx fy st s' r
   end.
